@@ -1,6 +1,9 @@
 package main
 
 import (
+	"encoding/json"
+	"fmt"
+	"os"
 	"testing"
 
 	"verif/simcore"
@@ -9,4 +12,39 @@ import (
 // TestRun is the worker entry point; WorkerMain never returns (os.Exit).
 func TestRun(t *testing.T) {
 	simcore.WorkerMain(spec(t))
+}
+
+// TestRefresh is a maintenance tool for the files under sweepsim/findings:
+// it replays VERIF_REPLAY on the current tree, minimises it again and writes a
+// replay file with the current trace and message to VERIF_C18_REFRESH.
+//
+//	VERIF_REPLAY=old.json VERIF_C18_REFRESH=new.json run_sweepsim -test.run='^TestRefresh$'
+func TestRefresh(t *testing.T) {
+	in, out := os.Getenv("VERIF_REPLAY"), os.Getenv("VERIF_C18_REFRESH")
+	if in == "" || out == "" {
+		t.Skip("VERIF_REPLAY / VERIF_C18_REFRESH not set")
+	}
+	b, err := os.ReadFile(in)
+	if err != nil {
+		t.Fatal(err)
+	}
+	var rf simcore.ReplayFile
+	if err := json.Unmarshal(b, &rf); err != nil {
+		t.Fatal(err)
+	}
+	sp := spec(t)
+	sp.ShrinkBudget = 600
+	o := simcore.Execute(sp.Run, simcore.NewReplayTape(rf.Cfg, rf.Steps), rf.Seed, rf.Tier)
+	if o.Violation == nil {
+		t.Fatalf("replay passes on this tree (harness error: %q)", o.HarnessErr)
+	}
+	cfg, steps, v, trace, execs := simcore.Shrink(sp, rf.Cfg, rf.Steps, rf.Seed, rf.Tier, *o.Violation, o.Trace)
+	nf := simcore.ReplayFile{Property: rf.Property, Engine: rf.Engine, Seed: rf.Seed, Tier: rf.Tier,
+		Cfg: cfg, Steps: steps, Violation: v, Trace: trace,
+		Shrink: fmt.Sprintf("refreshed: %d→%d steps in %d executions", len(rf.Steps), len(steps), execs)}
+	nb, _ := json.MarshalIndent(nf, "", " ")
+	if err := os.WriteFile(out, nb, 0o644); err != nil {
+		t.Fatal(err)
+	}
+	fmt.Printf("refreshed %s: code=%s sig=%s steps=%d\n", out, v.Code, v.Sig, len(steps))
 }
